@@ -42,7 +42,7 @@ def decode_at(data, creator="O"):
     return name, out[name], s.index
 
 
-CURSOR_CASES = ["EH", "LP", "UD", "ED", "EDc", "XX", "MT", "PS0", "SS0"]
+CURSOR_CASES = ["EH", "EHbig", "LP", "UD", "ED", "EDc", "XX", "MT", "PS0", "SS0"]
 LOOP_CASES = ["B", "A:1", "B:1", "C:1", "D:1", "S:1"]
 
 HARNESSES = [
@@ -52,7 +52,7 @@ HARNESSES = [
     {"fn": "h_loop", "cases": LOOP_CASES, "quick_cases": ["A:1", "C:1", "S:1"], "timeout": {"quick": 120, "thorough": 900}},
     {"fn": "h_numbering", "cases": ["m4"], "timeout": {"quick": 60, "thorough": 300}},
 ]
-BOUNDS = {"cursor": "EH symptom length 0..12; LP name length 0..8 x target count 0..5; UD/ED/other payload 1..16 bytes "
+BOUNDS = {"cursor": "EH symptom length 0..12 and 10 lengths up to 255; LP name length 0..8 x target count 0..5; UD/ED/other payload 1..16 bytes "
                     "(declared length symbolic) with symbolic unknown id for 'other'; SRC: 0..3 callouts x 16 FRU flag "
                     "nibbles x PCE x MRU (C03 layout sweep); the two bytes following the section are symbolic in every case",
           "loop": "PH+UH+ up to 10 optional sections from 4 catalogue orderings (repeated UD/SS/ED, every decoded type); "
@@ -79,6 +79,15 @@ def h_cursor() -> bool:
         for cand in range(13):
             if k == cand:
                 sec = pb.EH(symptom=(b"BD8D1234_2B2C"[:cand - 1] + b"\0") if cand else b"")
+        exp_name = "Extended User Header"
+    elif typ == "EHbig":
+        # symptom id lengths up to the one-byte maximum (multiples of 4 keep the section word aligned as real logs are)
+        k = sym_int("k", 0, 9)
+        sec = None
+        sizes = [16, 40, 76, 80, 84, 88, 128, 200, 252, 255]
+        for cand in range(10):
+            if k == cand:
+                sec = pb.EH(symptom=(b"BD8D1234_2B2C0000_" * 15)[:sizes[cand] - 1] + b"\0")
         exp_name = "Extended User Header"
     elif typ == "LP":
         nl, cnt = sym_int("nl", 0, 8), sym_int("cnt", 0, 5)
